@@ -86,4 +86,32 @@ PROPS = {
              "(source, initial context)",
         assumptions=COMMON,
     ),
+    "C09": dict(
+        rule="a case is one cell of the complete configuration matrix: 53 names (49 builtins + 4 others) x 7 context "
+             "kinds (HashMapContext, clone, after clear_functions, after clear, clone with the original modified "
+             "afterwards, RecordingContext, the two fixed empty contexts) x builtin switch {on, off, toggled twice} x "
+             "user function named n {absent, present} x variable named n {absent, present} x 10 call forms, each "
+             "through 4 entry points (string/precompiled x immutable/mutable), plus random nested call chains; result, "
+             "callee (recorded user-function calls) and argument shape must equal the reference lookup model; "
+             "non-trivial = the reference claims the cell; distinct = distinct (cell, entry point)",
+        assumptions=COMMON + ["a user function that itself returns FunctionIdentifierNotFound is not generated (it is the "
+                              "Context trait's own 'undefined' signal)"],
+    ),
+    "C12": dict(
+        rule="a case is one (string, context) pair: random programs, token soup, one snippet per result type and error "
+             "kind, hostile character soup; all 24 string-level and 24 tree-level entry points are called from clones "
+             "of the same context and compared (Debug-structurally, NaN-aware) with the projection of the untyped "
+             "evaluation; final contexts of mutable variants, repeatability and the precompile-error rule are checked "
+             "too; non-trivial = every pair; distinct = distinct (string, context)",
+        assumptions=COMMON + ["implementation against implementation: the untyped string-level mutable evaluation is the base"],
+    ),
+    "C14": dict(
+        rule="a case is one well-formed program: every AST with <= 3 operator nodes with distinct names at every "
+             "identifier (minimal and full parentheses), six hand-picked traversal-hostile shapes, random ASTs to "
+             "depth 12; the 5 immutable and 5 mutable iterators must equal the occurrence list of the generating AST; "
+             "unknown-identifier errors must name listed identifiers; an injective renaming through the mutable "
+             "iterators plus the same renaming of the context must not change the result; non-trivial = the program "
+             "precompiles; distinct = distinct source texts",
+        assumptions=COMMON,
+    ),
 }
